@@ -22,17 +22,22 @@ func (context *Context) LocateObjectByRef(ref ast.RefType) (ast.Object, bool) {
 }
 
 func (context *Context) ResolveToBuilder(def ast.Type) bool {
+	return context.resolveToBuilder(def, make(map[string]struct{}))
+}
+
+// visited holds the references already followed: types can be recursive (`V: string | [...V]`).
+func (context *Context) resolveToBuilder(def ast.Type, visited map[string]struct{}) bool {
 	if def.IsArray() {
-		return context.ResolveToBuilder(def.AsArray().ValueType)
+		return context.resolveToBuilder(def.AsArray().ValueType, visited)
 	}
 
 	if def.IsMap() {
-		return context.ResolveToBuilder(def.AsMap().ValueType)
+		return context.resolveToBuilder(def.AsMap().ValueType, visited)
 	}
 
 	if def.IsDisjunction() {
 		for _, branch := range def.AsDisjunction().Branches {
-			if found := context.ResolveToBuilder(branch); found {
+			if found := context.resolveToBuilder(branch, visited); found {
 				return true
 			}
 		}
@@ -46,7 +51,12 @@ func (context *Context) ResolveToBuilder(def ast.Type) bool {
 
 	resolvedRef := context.ResolveRefs(def)
 	if resolvedRef.IsDisjunction() {
-		return context.ResolveToBuilder(resolvedRef)
+		if _, seen := visited[def.Ref.String()]; seen {
+			return false
+		}
+		visited[def.Ref.String()] = struct{}{}
+
+		return context.resolveToBuilder(resolvedRef, visited)
 	}
 
 	return len(context.Builders.LocateAllByRef(def.AsRef())) != 0
